@@ -152,6 +152,14 @@ def register_kernels2(w):
     scalar_const = w.fn("is_scalar_constant", V, z3.IntSort(), z3.BoolSort())
     w.c02_preds = dict(nested_ref=nested_ref, scalar_const=scalar_const)
 
+    def rauw_frame(ex, a, b, hv_old, hv_new):
+        # replace_all_uses_with(a, b) changes who refers to a and b only; constants stay constants
+        v = z3.Const("v!rf", V)
+        ex.pc.append(z3.ForAll([v], z3.Implies(z3.And(v != a.term, v != b.term), nested_ref(v, hv_new) == nested_ref(v, hv_old)), patterns=[nested_ref(v, hv_new)]))
+        ex.pc.append(z3.ForAll([v], scalar_const(v, hv_new) == scalar_const(v, hv_old), patterns=[scalar_const(v, hv_new)]))
+    w.rauw_frame_hooks = list(getattr(w, "rauw_frame_hooks", [])) + [rauw_frame]
+    w.trust("replace_all_uses_with(a, b) changes neither which nested bodies refer to other values nor which values are constants")
+
     def hv(ex):
         return ex.ghost.get("heap_version", z3.IntVal(0))
     w.c02_hv = hv
